@@ -1137,6 +1137,32 @@ def wf_py(ss, d, D, W):
     return D, W
 
 
+def wfw_py(ss, d, W):
+    """mirror of Nifly.Schema.wfw: single assignment, conditions and counts read only names that may have been synced before"""
+    def expr_ok(e):
+        if e[0] == "lit":
+            return True
+        if e[0] == "var":
+            return e[2] <= d and (e[1], d - e[2]) in W
+        if e[0] == "tbl":
+            return expr_ok(e[1])
+        return expr_ok(e[2]) and expr_ok(e[3])
+    for s in ss:
+        if s[0] == "sc":
+            if (s[2], d) in W:
+                raise Opaque(f"location {s[2]} synced twice on one path")
+            W = W | {(s[2], d)}
+        elif s[0] == "ite":
+            if not expr_ok(s[1]):
+                raise Opaque("a condition reads a location that nothing before it transfers")
+            W = wfw_py(s[2], d, W) | wfw_py(s[3], d, W)
+        elif s[0] == "rep":
+            if not expr_ok(s[1]):
+                raise Opaque("a loop count reads a location that nothing before it transfers")
+            W = wfw_py(s[2], d + 1, W)
+    return W
+
+
 def lean_expr(e):
     if e[0] == "lit":
         return f"(.lit {e[1]})"
@@ -1218,6 +1244,7 @@ def generate(repo=None, out=None, types=None, verenv=None):
     unsynced = {}
     low = Lowering()
     uniq, index = {}, {}
+    uniq_weak, index_weak, weak_reason = {}, {}, {}
     for t, g in generic.items():
         for vn, env in verenv.items():
             try:
@@ -1228,7 +1255,15 @@ def generate(repo=None, out=None, types=None, verenv=None):
                     unsynced.setdefault(t, set()).update(consts)
                     sp = spec(subst_as_generic(subst_consts(sp, consts)), env, pr)
                 ss = low.stmts(sp, [])
-                wf_py(ss, 0, frozenset(), frozenset())
+                try:
+                    wf_py(ss, 0, frozenset(), frozenset())
+                except Opaque as e_strong:
+                    # the weaker discipline (fixed point only) may still hold
+                    wfw_py(ss, 0, frozenset())
+                    key = json.dumps(ss)
+                    index_weak[(t, vn)] = uniq_weak.setdefault(key, len(uniq_weak))
+                    weak_reason[(t, vn)] = str(e_strong)
+                    continue
             except Opaque as e:
                 opaque[t + "@" + vn] = str(e)
                 continue
@@ -1251,6 +1286,12 @@ def generate(repo=None, out=None, types=None, verenv=None):
     nch = max(1, (len(schemas) + CH - 1) // CH)
     for c in range(nch):
         L.append(f"def schemaChunk{c} : List Stmt := [" + ", ".join(f"schema{i}" for i in range(c * CH, min(len(schemas), (c + 1) * CH))) + "]")
+    weak = [json.loads(k) for k in uniq_weak]
+    for i, ss in enumerate(weak):
+        L.append(f"def schemaW{i} : Stmt := {lean_stmts(ss)}")
+    L += ["", "/-- schemas that obey only the weaker discipline `wfw` (fixed point direction) -/",
+          "def schemasWeak : List Stmt := [" + ", ".join(f"schemaW{i}" for i in range(len(weak))) + "]",
+          "def schemaIndexWeak : List (String × String × Nat) := [" + ", ".join(f"({json.dumps(t)}, {json.dumps(v)}, {i})" for (t, v), i in sorted(index_weak.items())) + "]"]
     L += ["", "def schemaChunks : List (List Stmt) := [" + ", ".join(f"schemaChunk{c}" for c in range(nch)) + "]", "",
           "/-- the distinct wire schemas of the in-fragment (block type, version) pairs -/",
           "def schemas : List Stmt := schemaChunks.flatten", "",
@@ -1288,17 +1329,18 @@ def generate(repo=None, out=None, types=None, verenv=None):
             os.remove(os.path.join(gdir, f))
     alts = " | ".join(["rfl"] * nch)
     firsts = " | ".join(f"exact wf_chunk{c} s hs" for c in range(nch))
-    t = ("/- GENERATED by translator/schema.py. DO NOT EDIT. -/\n" + "".join(f"import NiflyVerif.Generated.SchemasWf{c}\n" for c in range(nch)) +
+    t = ("/- GENERATED by translator/schema.py. DO NOT EDIT. -/\nimport NiflyVerif.Wire.SchemaWeak\n" + "".join(f"import NiflyVerif.Generated.SchemasWf{c}\n" for c in range(nch)) +
          "namespace Nifly.Generated\nopen Nifly.Schema\n\n"
          "/-- every generated schema obeys the static discipline (assembled from the per-chunk kernel evaluations) -/\n"
          "theorem schemas_wf : ∀ s ∈ schemas, (wf 0 s [] []).isSome = true := by\n"
          "  intro s hs\n  unfold schemas at hs\n  obtain ⟨l, hl, hs⟩ := List.mem_flatten.1 hs\n"
          "  simp only [schemaChunks, List.mem_cons, List.not_mem_nil, or_false] at hl\n"
-         f"  rcases hl with {alts}\n  all_goals first | {firsts}\n\nend Nifly.Generated\n")
+         f"  rcases hl with {alts}\n  all_goals first | {firsts}\n\n"
+         "theorem schemasWeak_wfw : ∀ s ∈ schemasWeak, (wfw 0 s []).isSome = true := by decide +kernel\n\nend Nifly.Generated\n")
     f = os.path.join(gdir, "SchemasWf.lean")
     if not os.path.exists(f) or open(f).read() != t:
         open(f, "w").write(t)
-    return dict(index=index, opaque=opaque, names=names, schemas=schemas, types=types, versions=vnames, normalisers=sorted(tr.normalisers),
+    return dict(index=index, index_weak=index_weak, weak_reason={f"{t}@{v}": r for (t, v), r in weak_reason.items()}, opaque=opaque, names=names, schemas=schemas, types=types, versions=vnames, normalisers=sorted(tr.normalisers),
                 unsynced_control={t: sorted(v) for t, v in sorted(unsynced.items())})
 
 
